@@ -124,7 +124,7 @@ def run_c10(pid, tier, seed, replay=None):
         ck.cov["traces_validated_against_impl"] = len(monos)
         ck.cov["evaluations"] = len(monos)
         ck.cov["distinct_nontrivial"] = len(monos)
-        ck.cov["rule"] = "the C09 problem sample, every choice of monotonic dimension; pseudo-random (oscillating, decreasing, noisy) integer data; 3 worker threads"
+        ck.cov["rule"] = "the C09 problem sample, every choice of monotonic dimension; pseudo-random (oscillating, decreasing, noisy) integer data, increasing data clean and with low outliers at the top; every third fit through splinetable_glamfit; 3 worker threads"
         return ck.finish(exhaustive=False)
     finally:
         if not os.environ.get("VERIF_KEEP"):
